@@ -108,6 +108,16 @@ def callee_names(t):
     return names
 
 
+def _strip_lifetimes(path):
+    """`a::B::<'x>::f` -> `a::B::f`; `a::B::<'x, T>::f` -> `a::B::<T>::f`."""
+    import re
+    def fix(m):
+        parts = [x.strip() for x in m.group(1).split(",")]
+        rest = [x for x in parts if not x.startswith("'")]
+        return "::<%s>" % ", ".join(rest) if rest else ""
+    return re.sub(r"::<([^<>]*)>", fix, path)
+
+
 class Crate:
     def __init__(self, path):
         with open(path) as fh:
@@ -119,6 +129,7 @@ class Crate:
         self.statics = d["statics"]
         self.fns = [Fn(f, self.name) for f in d["fns"]]
         self.by_path = {}
+        self._nolife = None
         self.by_dp = {}
         for f in self.fns:
             self.by_path.setdefault(f.path, []).append(f)
@@ -128,6 +139,13 @@ class Crate:
     def fn(self, path):
         """Exactly one function with this def path, else None."""
         fs = self.by_path.get(path, [])
+        if not fs:
+            # the same path up to lifetime parameters (`Parser::parse` vs `Parser::<'a>::parse`)
+            if self._nolife is None:
+                self._nolife = {}
+                for f in self.fns:
+                    self._nolife.setdefault(_strip_lifetimes(f.path), []).append(f)
+            fs = self._nolife.get(_strip_lifetimes(path), [])
         return fs[0] if len(fs) == 1 else None
 
     def fns_matching(self, pred):
